@@ -56,7 +56,9 @@ class C12(Prop):
     title = 'Addresses map one-to-one to standard scripts, on the selected chain only'
     lean_targets = ['BtcVerif.Props.C12']
     table_groups = ['Chain']
-    theorems = ['BtcVerif.C12.' + t for t in ()]
+    theorems = ['BtcVerif.C12.' + t for t in (
+        'select_step', 'select_inv', 'selected_mem', 'roundtrip', 'roundtrip_after_history', 'refuse_total',
+        'unsupported_witver_refused', 'cross_chain_refused_base58', 'cross_chain_refused_bech32')]
     anchors = [('bitcoin/wallet.py', 'CBitcoinAddress.__new__'), ('bitcoin/wallet.py', 'CBitcoinAddress.from_scriptPubKey'),
                ('bitcoin/wallet.py', 'CBech32BitcoinAddress.from_bytes'),
                ('bitcoin/wallet.py', 'CBech32BitcoinAddress.from_scriptPubKey'),
